@@ -433,7 +433,46 @@ theorem step_safe (p : List (Prim L)) (hc : Closed p) (h : Head L) (hh : HeadOK 
           intro l' hl'
           exact hh.2 l' (by simp [hcat, hl'])
     | ret => simp
+    | specOp op g rv =>
+      cases c with
+      | true => simpa using hnext
+      | false =>
+        cases hcat : h.handlers with
+        | nil => simp
+        | cons l rest =>
+          obtain ⟨i, hi, hilt, _⟩ := lookupLabel_of_mem p l (hh.2 l (by simp [hcat]))
+          simp [hi]
+          exact ⟨Nat.le_of_lt hilt, by rw [← hcat]; exact hh.2⟩
+    | beginScope n =>
+      by_cases hn : n ∈ h.scopes
+      · simp [hn]
+      · simp [hn]; exact hnext
+    | endScope n => simp; exact hnext
     | _ => simpa using hnext
+
+theorem runPath_reach (p : List (Prim L)) : ∀ (cs : List (Bool × Nat)) (h h' : Head L),
+    Reach p h → runPath p h cs = some h' → Reach p h' := by
+  intro cs
+  induction cs with
+  | nil => intro h h' hr he; simp [runPath] at he; subst he; exact hr
+  | cons ck rest ih =>
+    intro h h' hr he
+    obtain ⟨c, k⟩ := ck
+    simp only [runPath] at he
+    cases hs : step p h c with
+    | next hs' =>
+      rw [hs] at he
+      simp only at he
+      cases hk : hs'[k]? with
+      | none => rw [hk] at he; cases he
+      | some h1 =>
+        rw [hk] at he
+        exact ih h1 h' (Reach.step h c hs' h1 hr hs (List.mem_of_getElem? hk)) he
+    | finished => rw [hs] at he; cases he
+    | keyError => rw [hs] at he; cases he
+    | invalidLabel => rw [hs] at he; cases he
+    | popEmpty => rw [hs] at he; cases he
+    | scopeError => rw [hs] at he; cases he
 
 theorem reach_ok (p : List (Prim L)) (hc : Closed p) (h : Head L) (hr : Reach p h) : HeadOK p h := by
   induction hr with
